@@ -89,7 +89,14 @@ func c06build(f string, rot int) *c06built {
 						env[k] = v
 					}
 				}
-				cs := &pipeline.CommandStep{Command: fmt.Sprintf("echo %d", i), Label: fmt.Sprintf("l%d", i), Env: env,
+				cmd := fmt.Sprintf("echo %d", i)
+				switch i % 4 {
+				case 2:
+					cmd += "\r\nsecond line\r\n" // CRLF line ends
+				case 3:
+					cmd = " \t" + cmd + " \u00e9\n\n" // leading white space, non-ASCII, trailing newlines
+				}
+				cs := &pipeline.CommandStep{Command: cmd, Label: fmt.Sprintf("l%d", i), Env: env,
 					Plugins:         pipeline.Plugins{{Source: "docker#v1", Config: map[string]any{"image": fmt.Sprintf("img%d", i)}}},
 					RemainingFields: map[string]any{"agents": ordered.MapFromItems(ordered.TupleSA{Key: "queue", Value: "q"})}}
 				if i%3 == 1 {
@@ -276,7 +283,7 @@ func init() {
 	register(&report.Check{
 		ID: "C06",
 		Rule: "every ordered forest of <=6 (quick) / <=8 (thorough) nodes over {command, other known step (wait/input/trigger cycled), unknown, group}, groups nested to depth 4, " +
-			"command steps carrying step env variants (none, {A}, {C}, {A,C}, empty, {A: \"\"}, {B: \"\", C: \"\"}; rotated), plugins or a matrix; x pipeline env in {{A,B}, nil, {}, {A}, {B}, {A: \"\", B}} and all rotations for forests of <=4 nodes; " +
+			"command steps (every third and fourth with CRLF line ends / leading white space, non-ASCII text and trailing newlines in the command) carrying step env variants (none, {A}, {C}, {A,C}, empty, {A: \"\"}, {B: \"\", C: \"\"}; rotated), plugins or a matrix; x pipeline env in {{A,B}, nil, {}, {A}, {B}, {A: \"\", B}} and all rotations for forests of <=4 nodes; " +
 			"EdDSA everywhere, ES512 / PS512 / ES256 crypto.Signer on forests of <=3 nodes. Oracle: unknown anywhere => error; else every command step at every depth is signed, verifies, names the key's " +
 			"algorithm, signed fields == sorted(5 mandatory + env::N for pipeline vars not shadowed by the step); deep snapshot and JSON of the steps minus signatures unchanged; caller's env map snapshot unchanged. " +
 			"Non-trivial = forest has a command step and a group.",
